@@ -149,6 +149,16 @@ structure Stats (β : Type) where
   max : β
   deriving Repr
 
+/-- which cached counts the data-replacing methods refresh (read from the source by the translator) -/
+structure CountCfg where
+  readSetsPoints : Bool      -- `read_data`: `self.n_points = self.training.shape[0]`
+  readSetsDims : Bool        -- `read_data`: `self.n_dims = self.training.shape[1]`
+  appendSetsPoints : Bool    -- `append_data`: `self.n_points = self.training.shape[0]`
+  subsetSetsDims : Bool      -- `feature_subset`: `self.n_dims = …shape[1]`
+  deriving DecidableEq, Repr
+
+def CountCfg.std : CountCfg := ⟨true, true, true, true⟩
+
 structure Data (α : Type) where
   training : List (List α)
   response : List α
@@ -167,6 +177,13 @@ def init (t : List (List α)) (r : List α) (d : Nat) : Data α :=
   { training := t, response := r, nPoints := t.length, nDims := d,
     respProps := ⟨z, z, z, z⟩,
     trainProps := ⟨List.replicate d z, List.replicate d z, List.replicate d z, List.replicate d z⟩ }
+
+/-- `read_data` called on an object that already holds a dataset (the example scripts do this in a loop:
+    read, subset, de-duplicate, normalise): both arrays are replaced; the stored statistics are left alone -/
+def readData (cfg : CountCfg) (s : Data α) (t : List (List α)) (r : List α) (d : Nat) : Data α :=
+  { s with training := t, response := r,
+           nPoints := if cfg.readSetsPoints then t.length else s.nPoints,
+           nDims := if cfg.readSetsDims then d else s.nDims }
 
 /-- `append_data` -/
 def appendData (s : Data α) (newT : List (List α)) (newR : List α) : Data α :=
